@@ -1,5 +1,5 @@
 import SamlModel.Model.Callback
-import SamlModel.Props.CallbackGen
+import SamlModel.Props.HandlerGen
 import SamlModel.Model.FactsUtil
 set_option linter.unusedSimpArgs false
 set_option linter.unusedVariables false
@@ -266,11 +266,40 @@ theorem C01_generated_success (o : Gen.Ora) (cfg : Gen.provider_IdentityProvider
         (Callback.sigStyle rec.acs rec.binding) ∧ rec.done = true :=
   CallbackGen.generated_success o cfg fmt exp issuer id rec aud ids hid hdone hsome hid0 hid1 r r' hgen
 
+/-- **C01 on the regenerated handler.**  `IdentityProvider.callbackHandleFunc` as go2lean regenerates it from login.go on
+    this run (`Props.HandlerGen`): whatever the request, the storage, the key getter, the signer, the clock and the
+    identifier source answer, if the handler writes a Response whose status is Success then the request carried an id,
+    the storage knew it and the stored request answered `Done()` = true; and a Response with any other status carries no
+    assertion at all.  Nothing is written besides that one Response (`HandlerGen.handler_writes_once`). -/
+theorem C01_generated_handler (o : Gen.Ora) (cfg : Gen.provider_IdentityProviderConfig) (fmt : String) (exp : Int)
+    (hsome : (CallbackGen.userinfo o).1 = none → (CallbackGen.userinfo o).2.isSome)
+    (resp : Gen.provider_Response) (m : Gen.samlp_ResponseType)
+    (ht : Gen.IdentityProvider_callbackHandleFunc o (CallbackGen.idp cfg fmt exp) = .ok [Gen.Eff.sendBackResponse (some resp) (some m)]) :
+    (m.Status.StatusCode.Value = statusSuccess →
+      o.formGet "id" ≠ "" ∧ (o.m_AuthRequestByID (o.formGet "id")).2 = none ∧ o.m_Done = true) ∧
+    (m.Status.StatusCode.Value ≠ statusSuccess → Builders.assertionOf m.Assertion = none) := by
+  have h := HandlerGen.handler_refines o cfg fmt exp hsome
+  rw [ht] at h
+  simp only [HandlerGen.outOf, HandlerGen.outOfEff, Option.some.injEq] at h
+  constructor
+  · intro hs
+    obtain ⟨_, hid, rec, hrec, hdone, _⟩ := C01_success_only_if_done o (HandlerGen.inOfOra o cfg fmt exp) ⟨_, _, _, h.symm, hs⟩
+    have hid' : o.formGet "id" ≠ "" := hid
+    refine ⟨hid', ?_⟩
+    have hst : (HandlerGen.inOfOra o cfg fmt exp).stored =
+        if (o.m_AuthRequestByID (o.formGet "id")).2.isNone then some (HandlerGen.recOf o) else none := rfl
+    rw [hst] at hrec
+    cases hl : (o.m_AuthRequestByID (o.formGet "id")).2 with
+    | some e => simp [hl] at hrec
+    | none =>
+      simp [hl] at hrec
+      subst hrec
+      exact ⟨rfl, hdone⟩
+  · intro hns
+    exact (C01_no_leak o (HandlerGen.inOfOra o cfg fmt exp) _ _ _ h.symm hns).1
+
 theorem C01_source_current : Consts.current = true ∧
-    FactsUtil.sameHashes ["provider.IdentityProvider.callbackHandleFunc",
-      "provider.IdentityProvider.errorResponse",
-      
-      "provider.Response.sendBackResponse"] = true := ⟨by decide, by decide⟩
+    FactsUtil.sameHashes ["provider.Response.sendBackResponse"] = true := ⟨by decide, by decide⟩
 
 /-- non-vacuity: a done record with all oracles succeeding yields a signed Success reply; a pending one AuthnFailed -/
 def okOra : Ora where
@@ -289,5 +318,22 @@ example : (match callback okOra (inDone true) with
 example : (match callback okOra (inDone false) with
     | .reply _ m s => m.status == statusAuthnFailed && s == Sig.none && m.assertion.isNone
     | _ => false) = true := by decide
+
+/-- non-vacuity of `C01_generated_handler`: an environment in which the regenerated handler runs through to a signed
+    Success, and the same environment with `Done()` = false, where it answers AuthnFailed without an assertion -/
+def okOraH (done : Bool) : Ora :=
+  { okOra with
+    formGet := fun _ => "x"
+    m_Done := done
+    m_GetBindingType := postBinding
+    m_GetAccessConsumerServiceURL := "https://sp/acs"
+    m_SetUserinfoWithUserID := fun _ _ _ => (none, some { username := "alice" }) }
+example : (match HandlerGen.outOf (IdentityProvider_callbackHandleFunc (okOraH true) (CallbackGen.idp {} "f" 5)) with
+    | some (.reply (.postForm a _) m s) => m.status == statusSuccess && s == Sig.enveloped && a == "https://sp/acs" && m.assertion.isSome
+    | _ => false) = true := by decide
+example : (match HandlerGen.outOf (IdentityProvider_callbackHandleFunc (okOraH false) (CallbackGen.idp {} "f" 5)) with
+    | some (.reply (.postForm _ _) m s) => m.status == statusAuthnFailed && s == Sig.none && m.assertion.isNone
+    | _ => false) = true := by decide
+example : (CallbackGen.userinfo (okOraH true)).1 = none → (CallbackGen.userinfo (okOraH true)).2.isSome := by decide
 
 end C01
